@@ -1,15 +1,18 @@
 package diff
 
 import (
+	"encoding/json"
 	"fmt"
 	"math/rand"
 	"os"
+	"path/filepath"
 	"sort"
 	"strings"
 
 	"github.com/onflow/cadence/common"
 	jsoncdc "github.com/onflow/cadence/encoding/json"
 
+	"verif/lib/evid"
 	"verif/lib/host"
 	"verif/lib/prog"
 	"verif/lib/splicegen"
@@ -30,6 +33,27 @@ type Source struct {
 var Sources []Source
 
 func register(s Source) { Sources = append(Sources, s) }
+
+// anyKnown reports whether finding id is listed with status "known" for any property
+// (used to switch off the trigger of another group's finding in its generator).
+func anyKnown(id string) bool {
+	b, err := os.ReadFile(filepath.Join(evid.Root(), "known_findings.json"))
+	if err != nil {
+		return false
+	}
+	var f struct {
+		Findings []evid.Finding `json:"findings"`
+	}
+	if json.Unmarshal(b, &f) != nil {
+		return false
+	}
+	for _, x := range f.Findings {
+		if x.ID == id && x.Status == "known" {
+			return true
+		}
+	}
+	return false
+}
 
 // drawSource picks a source by weight, restricted by DIFF_SOURCE when set.
 func drawSource(r *rand.Rand) *Source {
